@@ -4,6 +4,7 @@ helpers `handle_num`, `scan_for_unescaped_delim`, `process_escapes_into`, `handl
 import-free, over `List Char` (the real lexer works on a `Vec<char>`; spans are *character* indices).
 
 `tokenize` is total: it returns the token list (always ending in `eof`) and the lexer diagnostics.
+Follows /repo after the fixes 53558bb (D10), 3d09d81 (D40), fc9cd91 (D42), 5388a80 (D12), 39e6d4f (D51), 53a5e12 (D50).
 -/
 namespace Abra.Lex
 
@@ -30,8 +31,8 @@ structure Token where
   deriving DecidableEq, Repr, Inhabited
 
 inductive LexError
-  /-- `Error::UnrecognizedToken(file, index)` — absolute character index -/
-  | unrecognized (index : Nat)
+  /-- `Error::UnrecognizedToken(file, span)` — the span of the unrecognized character -/
+  | unrecognized (lo hi : Nat)
   /-- `Error::UnrecognizedEscapeSequence(file, span)` — the backslash and the character after it,
       as positions in the file -/
   | badEscape (lo hi : Nat)
@@ -363,13 +364,13 @@ def lexOne : List Char → Step
 
 /-- the main loop; `fuel ≥ cs.length + 1` suffices (every step consumes at least one character) -/
 def tokenizeAux : Nat → Nat → List Char → List Token × List LexError
-  | 0, pos, _ => ([⟨.eof, pos, pos + 1⟩], [])
-  | _ + 1, pos, [] => ([⟨.eof, pos, pos + 1⟩], [])
+  | 0, pos, _ => ([⟨.eof, pos, pos⟩], [])
+  | _ + 1, pos, [] => ([⟨.eof, pos, pos⟩], [])   -- the EOF token is an empty span at the end
   | f + 1, pos, c :: rest =>
     let s := lexOne (c :: rest)
     let n := max s.len 1
     let (ts, es) := tokenizeAux f (pos + n) ((c :: rest).drop n)
-    let es' := (if s.unrecognized then [LexError.unrecognized pos] else []) ++
+    let es' := (if s.unrecognized then [LexError.unrecognized pos (pos + 1)] else []) ++
       s.badEscapes.map (fun (lo, hi) => LexError.badEscape (pos + lo) (pos + hi)) ++ es
     match s.tok with
     | some k => (⟨k, pos, pos + n⟩ :: ts, es')
@@ -393,17 +394,15 @@ def utf8Len : List Char → Nat
   | [] => 0
   | c :: cs => c.utf8Size + utf8Len cs
 
-/-- `Lexer::byte_pos`: byte offset of the character with index `i`; past the end of the source
-    (the `Eof` token) one byte per position -/
-def bytePos (src : List Char) (i : Nat) : Nat :=
-  if i ≤ src.length then utf8Len (src.take i) else utf8Len src + (i - src.length)
+/-- `Lexer::byte_pos`: byte offset of the character with index `i` (never past the end of the source) -/
+def bytePos (src : List Char) (i : Nat) : Nat := utf8Len (src.take i)
 
 /-- what `tokenize_file` hands out: every position is a byte offset into the source -/
 def tokenizeBytes (src : List Char) : List Token × List LexError :=
   let (ts, es) := tokenize src
   (ts.map (fun t => { t with lo := bytePos src t.lo, hi := bytePos src t.hi }),
    es.map (fun e => match e with
-     | .unrecognized i => .unrecognized (bytePos src i)
+     | .unrecognized lo hi => .unrecognized (bytePos src lo) (bytePos src hi)
      | .badEscape lo hi => .badEscape (bytePos src lo) (bytePos src hi)))
 
 end Abra.Lex
